@@ -188,6 +188,32 @@ class C20(Prop):
                                 "do m clone,c1,/c20/u1/a", "do c1 load,/c20/u2/b", "do m clone,c1,/c20/u1/b"])
         mk("nested-reload-reruns", ["script /c20/u1/a seteuid,s:u1;clone,c1,/c20/u1/b", "do m load,/c20/u1/a", "do m reload,u1a",
                                     "script /c20/u1/a -", "do m reload,u1a", "script /c20/u1/a load,/c20/u1/c", "do m reload,u1a"])
+        # ---- virtual objects (master::compile_object clones a template; the driver renames the clone) ------------
+        mk("virtual-load-clone", ["pol co u1 t:/c20/u2/a", "do m load,/c20/u1/a", "do m load,/c20/u1/v1", "do m load,/c20/u1/v1",
+                                  "do u1a load,/c20/u1/v1", "do u1a load,/c20/u1/v2", "do u1a clone,c1,/c20/u1/v1",
+                                  "do u1a seteuid,s:u1", "do u1a clone,c1,/c20/u1/v1", "do u1a clone,c2,/c20/u1/v3",
+                                  "do u1a load,/c20/u2/v1", "pol co u2 i:7", "do u1a load,/c20/u2/v1", "pol co u2 err",
+                                  "do u1a load,/c20/u2/v1", "do u1a clone,c3,/c20/u2/v1", "pol co u2 none", "do u1a clone,c3,/c20/u2/v1",
+                                  "do m dest,v1", "do m load,/c20/u1/v1", "do m reload,v2", "pol co u1 -", "do m clone,c4,/c20/u1/v1",
+                                  "do m load,/c20/u1/v9"])
+        # the class of the round-3 breaking change: an euid-0 object clones an already loaded virtual object
+        mk("virtual-clone-noeuid", ["pol co u1 t:/c20/u2/a", "do m load,/c20/u1/v1", "do m load,/c20/u1/a",
+                                    "do u1a clone,c1,/c20/u1/v1", "do u1a load,/c20/u1/v1", "do u1a clone,c1,/c20/u1/v2",
+                                    "do v1 clone,c2,/c20/u1/v1", "do v1 seteuid,s:x9", "do v1 clone,c2,/c20/u1/v1"])
+        mk("virtual-template-scripts", ["script /c20/u2/a# seteuid,s:u2;load,/c20/u2/b;clone,c1,/c20/u2/c",
+                                        "script /c20/u2/b load,/c20/root/v3", "pol co u1 t:/c20/u2/a", "pol co root t:/c20/root/a", "pol cf u2 s:Root",
+                                        "do m load,/c20/u1/v1", "pol cf u2 s:Backbone", "do m clone,c5,/c20/u1/v1",
+                                        "do m seteuid,i:0", "do m load,/c20/u1/v4"])
+        mk("virtual-bad-template", ["pol co u1 t:/c20/u2/nofile", "do m load,/c20/u1/v1", "pol co u1 t:/c20/odd/v2", "do m load,/c20/u1/v1", "pol co odd t:/c20/odd/a", "do m load,/c20/u1/v1",
+                                    "pol co u1 t:/c20/u2/a", "pol cf u2 err", "do m load,/c20/u1/v1", "do m clone,v4,/c20/u2/b",
+                                    "pol cf u2 s:u2", "do m load,/c20/u1/v1", "do m load,/c20/u1/v1", "do m clone,c1,/c20/u1/v1"])
+        # repaired defect 3: the blueprint's create() makes the cloner lose its euid (reload_object) before the clone is made
+        mk("clone-toctou-reload", ["script /c20/u2/a reload,u1a", "do m load,/c20/u1/a", "do u1a seteuid,s:u1",
+                                   "do u1a clone,c1,/c20/u2/a", "do u1a seteuid,s:u1", "do u1a clone,c1,/c20/u2/a"])
+        mk("clone-toctou-virtual", ["script /c20/u2/a# reload,u1a", "pol co u1 t:/c20/u2/a", "do m load,/c20/u1/a", "do u1a seteuid,s:u1",
+                                    "do u1a clone,c1,/c20/u1/v1", "do u1a seteuid,s:u1", "do u1a clone,c1,/c20/u1/v1"])
+        mk("nested-reload", ["script /c20/u1/a seteuid,s:u1;reload,u2a;reload,u1a;reload,m;load,/c20/u2/b", "script /c20/u2/b reload,u1a;reload,u2a",
+                             "do m load,/c20/u2/a", "do u2a seteuid,s:u2", "do m load,/c20/u1/a"])
         return B
 
     def gen_scripts(self, rng):
@@ -222,7 +248,8 @@ class C20(Prop):
                 elif kind == "export":
                     ops.append("export,%s" % rng.choice(["m", "c1", "c2", "u1a", "u2a", "bba"]))
                 else:
-                    ops.append(rng.choice(["dest,m", "reload,u1a", "load,/c20/u1/nofile", "seteuid,i:7", "dest,u1a"]))
+                    ops.append(rng.choice(["dest,m", "reload,u1a", "reload,u2a", "reload,c1", "reload,bba", "load,/c20/u1/nofile",
+                                           "seteuid,i:7", "dest,u1a"]))
             lines.append("script %s %s" % (k, ";".join(ops)))
         return lines, chain
 
@@ -232,9 +259,16 @@ class C20(Prop):
         lines = []
         objs = {"m": True}            # oid -> probably has an euid
         nclone = [0]
+        nv = [0]
         refuse_default = rng.chance(1, 4)
         if refuse_default:
             lines.append("pol vs * * %s" % rng.choice(["i:0", "none"]))
+        all_paths = ["/c20/%s/%s" % (d, f) for d in DIRS for f in FILES]
+        virt_dirs = []
+        if rng.chance(1, 2):
+            for d in rng.shuffle(DIRS)[:rng.range(1, 2)]:
+                virt_dirs.append(d)
+                lines.append("pol co %s %s" % (d, rng.weighted([("t:" + rng.choice(all_paths), 8), ("none", 1), ("i:3", 1), ("err", 1)])))
         chain = []
         if rng.chance(2, 3):
             sl, chain = self.gen_scripts(rng)
@@ -253,12 +287,18 @@ class C20(Prop):
         def path():
             if rng.chance(1, 25):
                 return "/c20/%s/%s" % (rng.choice(DIRS + ["zz"]), rng.choice(["nofile", "x"]))
+            if virt_dirs and rng.chance(1, 4):
+                return "/c20/%s/v%d" % (rng.choice(virt_dirs), rng.range(1, 3))
             if chain and rng.chance(1, 3):
                 return rng.choice(chain)
             return "/c20/%s/%s" % (rng.choice(DIRS), rng.choice(FILES))
 
         def created(a, p, oid=None):
             d, f = p.split("/")[2:4]
+            if f.startswith("v") and d in virt_dirs and a in objs and objs[a]:
+                nv[0] += 1
+                objs.setdefault("v%d" % nv[0], False)
+                return
             if d in DIRS and f in FILES and a in objs and objs[a]:
                 objs.setdefault(d + f, d == "bb")
                 if oid and oid.startswith("c"):
@@ -274,6 +314,9 @@ class C20(Prop):
 
         nsteps = rng.range(4, 45)
         for _ in range(nsteps):
+            if virt_dirs and rng.chance(1, 30):
+                lines.append("pol co %s %s" % (rng.choice(virt_dirs), rng.choice(["-", "none", "err", "i:0", "t:" + rng.choice(all_paths)])))
+                continue
             if rng.chance(1, 6):
                 if rng.chance(1, 2):
                     lines.append("pol cf %s %s" % (rng.choice(DIRS), rng.choice(CF_SPECS)))
@@ -337,7 +380,7 @@ class C20(Prop):
     def histogram(self, cases, impl):
         h = {"steps": 0, "creations": 0, "cf_error": 0, "late_init": 0, "seteuid_approved": 0, "seteuid_refused": 0,
              "seteuid_zero": 0, "export_ok": 0, "export_refused": 0, "export_error": 0, "noeuid_load_error": 0,
-             "noeuid_clone_error": 0, "nested_ops": 0, "nested_creations": 0, "nested_noeuid_refused": 0, "max_nesting": 0, "backbone_grants": 0, "policy_errors": 0, "nobj": 0, "reloads": 0,
+             "noeuid_clone_error": 0, "compile_object_calls": 0, "virtual_made": 0, "nested_ops": 0, "nested_creations": 0, "nested_noeuid_refused": 0, "max_nesting": 0, "backbone_grants": 0, "policy_errors": 0, "nobj": 0, "reloads": 0,
              "crash": 0}
         for c in cases:
             cur = None
@@ -355,6 +398,10 @@ class C20(Prop):
                     h["max_nesting"] = max(h["max_nesting"], len(stack) - 1)
                     cur = t[2] if len(t) > 2 else ""
                     pend_cf = None
+                elif t[0] == "co":
+                    h["compile_object_calls"] += 1
+                elif t[0] == "q":
+                    h["virtual_made"] = max(h["virtual_made"], 0) + (1 if False else 0)
                 elif t[0] == "cf":
                     pend_cf = t[2] if len(t) > 2 else None
                     if pend_cf == "err":
